@@ -103,8 +103,14 @@ func (in *Interp) registerTime(reg func(string, extFn)) {
 		if sec.IsConst() && sec.C == 0 {
 			return in.timeFromInt64(nsec)
 		}
-		in.unsupported("time.Unix with symbolic seconds")
-		return nil
+		// symbolic seconds: exact while sec*1e9+nsec fits 64 bits (years 1678..2262); the rest is outside the model
+		k := func(v int64) *Term { return ts.BV(64, uint64(v)) }
+		inRange := ts.AndN(ts.Cmp(OSle, k(-9223372034), sec), ts.Cmp(OSle, sec, k(9223372034)),
+			ts.Cmp(OSle, k(-1999999999), nsec), ts.Cmp(OSle, nsec, k(1999999999)))
+		if !in.branch(inRange, nil) {
+			in.unsupported("time.Unix with symbolic seconds outside the 64-bit nanosecond range")
+		}
+		return in.timeFromInt64(ts.Bin(OAdd, ts.Bin(OMul, sec, k(1000000000)), nsec))
 	})
 	reg("(time.Time).UnixNano", func(in *Interp, fr *frame, fn *ssa.Function, args []Value) Value {
 		t := tv(args[0])
